@@ -1,0 +1,45 @@
+//go:build verif
+
+package network
+
+// Contracts for the verif build tag only (comment-only file; see /verif/DESIGN.md).
+// C12: a stream that delivers bytes which do not decode is reset and reported as a receive error; only
+// messages that decoded are delivered; a panic below the stream handler is recovered by it.
+
+//@ ghost lastDecodeErr error      -- error of the most recent FromMsgReader call
+//@ ghost lastPanicErr error       -- result of the most recent panic-handler call
+//@ ghost nReset int               -- stream resets
+//@ ghost spawned int              -- goroutines started (in handleNewStream: the ReceiveError notifications)
+//@ func github.com/ipfs/go-graphsync/message.MessageHandler.FromMsgReader
+//@   assumed
+//@   modifies lastDecodeErr, alloc
+//@   ghost lastDecodeErr := result1
+//@ func github.com/libp2p/go-libp2p/core/network.MuxedStream.Reset
+//@   assumed
+//@   modifies nReset
+//@   ghost nReset := old(nReset) + 1
+//@ func libp2pGraphSyncNetwork$panicHandler
+//@   assumed
+//@   modifies lastPanicErr
+//@   ghost lastPanicErr := result
+
+//@ -- the deferred recovery: whatever recover() yields goes to the panic handler; if that reports a recovered panic the
+//@ -- stream is reset and the receiver is told
+//@ func libp2pGraphSyncNetwork.handleNewStream.func1
+//@   lenient
+//@   safety off
+//@   modifies lastPanicErr, nReset, spawned
+//@   ensures lastPanicErr != nil ==> nReset == old(nReset) + 1 && spawned == old(spawned) + 1
+//@   ensures lastPanicErr == nil ==> nReset == old(nReset) && spawned == old(spawned)
+//@   callsite libp2pGraphSyncNetwork$panicHandler argis "recover()": assert true
+
+//@ func libp2pGraphSyncNetwork.handleNewStream
+//@   lenient
+//@   safety off
+//@   modifies lastDecodeErr, lastPanicErr, nReset, spawned, alloc
+//@   -- only what decoded is delivered, as coming from the stream's remote peer
+//@   callsite Receiver.ReceiveMessage: assert lastDecodeErr == nil && $incoming == received && $sender == p
+//@   loop 1 invariant nReset == old(nReset) && spawned == old(spawned)
+//@   -- a decode failure other than end-of-stream: reset + receive error (the deferred recovery may add its own)
+//@   ensures (gsnet.receiver != nil && lastDecodeErr != io.EOF) ==> nReset >= old(nReset) + 1 && spawned >= old(spawned) + 1
+//@   ensures gsnet.receiver != nil ==> lastDecodeErr != nil
